@@ -126,6 +126,7 @@ type Exec struct {
 	freshRefs       map[string]bool
 	allocLimitTerm  string
 	flagRegs        map[string][]*LValue
+	globalsInit     map[string]bool
 	sortPost        func(ex *Exec, st *State, reach string, v Val, nw string)
 }
 
@@ -139,7 +140,7 @@ func newExec(eng *Engine, unit string) *Exec {
 		depthLimit: 8, hiddenCells: map[cellKey]types.Type{},
 		views: map[string]*viewInfo{}, boxed: map[string]Val{}, mapIterModified: map[cellKey]bool{},
 		loopCtxs: map[loopKey]*loopCtx{}, lockComps: map[string]bool{}, sentinelInit: map[string]bool{},
-		flagRegs: map[string][]*LValue{}, trimBounds: map[string][2]string{}, atomicCells: map[string]bool{}, freshRefs: map[string]bool{},
+		flagRegs: map[string][]*LValue{}, globalsInit: map[string]bool{}, trimBounds: map[string][2]string{}, atomicCells: map[string]bool{}, freshRefs: map[string]bool{},
 	}
 	return ex
 }
@@ -160,7 +161,7 @@ func (ex *Exec) cloneForTrial() *Exec {
 	}
 	sc.strList = append([]string(nil), ex.sc.strList...)
 	n.sc = &sc
-	n.compSort = copyMap(ex.compSort)
+	n.compSort = ex.compSort // sorts are a function of the component name: shared
 	n.lvIntern = copyMap(ex.lvIntern)
 	n.lvInternList = append([]string(nil), ex.lvInternList...)
 	n.lvBack = make(map[string]*LValue, len(ex.lvBack))
@@ -211,6 +212,10 @@ func (ex *Exec) cloneForTrial() *Exec {
 	n.blockReach = map[blockKey]string{}
 	for k, v := range ex.blockReach {
 		n.blockReach[k] = v
+	}
+	n.globalsInit = map[string]bool{}
+	for k, v := range ex.globalsInit {
+		n.globalsInit[k] = v
 	}
 	n.freshRefs = map[string]bool{}
 	for k, v := range ex.freshRefs {
@@ -380,18 +385,18 @@ func (ex *Exec) get(fr *Frame, v ssa.Value) Val {
 
 func (ex *Exec) globalPtr(g *ssa.Global) Val {
 	name := "G_" + sanitize(g.Pkg.Pkg.Name()+"_"+g.Name())
-	if _, ok := ex.sc.decls[name]; !ok {
+	if !ex.globalsInit[name] {
+		ex.globalsInit[name] = true
 		ex.sc.global(name, sInt)
 		ex.sc.assert(mkCmp(">", name, "0"))
 		// distinct globals have distinct references and are allocated initially
 		a0 := ex.compInit(compAlloc, sArr(sInt, sBool))
 		ex.sc.assert(mkSelect(a0, name))
-		for _, other := range ex.eng.globalNames(ex) {
+		for other := range ex.globalsInit {
 			if other != name {
 				ex.sc.assert(mkNot(mkEq(name, other)))
 			}
 		}
-		ex.eng.addGlobalName(ex, name)
 	}
 	return Val{T: g.Type(), L: []string{name}}
 }
